@@ -1,5 +1,6 @@
 import MtailVerif.Proofs.ExprGrammar
 import MtailVerif.Generated.Grammar
+import MtailVerif.Proofs.Skeletons
 /-! C23 — formatting preserves the program.  The part a theorem can carry: for every expression
     tree, the tokens the formatter writes (its parenthesisation rule, `lhsNeedsParens` /
     `rhsNeedsParens` of unparser.go, as modelled in Model/Unparse.lean) parse — by the
@@ -193,5 +194,13 @@ private def sample : Node :=
       (.builtin "len" (.exprs (.cons (.str [97] dp) .nil)) dp .unk) .unk) .unk
 example : WF sample := wf_sound.1 _ (by decide)
 example : parseAt 200 1 (toks sample) = some (sample, []) := by rfl
+
+/-! ### regenerated control skeletons (written by lib/wire_skeletons.py) -/
+/-- Obligations over regenerated facts: the functions this property's model stands for have the
+    control skeleton the model was written against (`Proofs/Skeletons.lean`, one `rfl` per function
+    or clause; DESIGN.md §11.6a) -/
+theorem lex_skeletons : Skeletons.LexShape := Skeletons.lex_shape
+theorem text_skeletons : Skeletons.TextShape := Skeletons.text_shape
+theorem unparseBefore_skeletons : Skeletons.UnparseBeforeShape := Skeletons.unparseBefore_shape
 
 end MtailVerif.C23
